@@ -81,6 +81,62 @@ def _bfs(V):
     V.ensure("bfs/yield_bfs-visits-the-same-atoms-in-the-same-order", z3.BoolVal(got2 == [a for a, _ in got]))
 
 
+NAMED = {
+    "ring5": (5, ((0, 1), (1, 2), (2, 3), (3, 4), (4, 0))),
+    "ring6": (6, ((0, 1), (1, 2), (2, 3), (3, 4), (4, 5), (5, 0))),
+    "ring6+chord+tail": (7, ((0, 1), (1, 2), (2, 3), (3, 4), (4, 5), (5, 0), (1, 4), (2, 6))),
+    "tree-depth3": (8, ((0, 1), (0, 2), (1, 3), (1, 4), (2, 5), (3, 6), (5, 7))),
+    "fused-5-4": (7, ((0, 1), (1, 2), (2, 3), (3, 4), (4, 0), (3, 5), (5, 6), (6, 4))),
+    "spiro+path": (8, ((0, 1), (1, 2), (2, 0), (0, 3), (3, 4), (4, 0), (4, 5), (5, 6), (6, 7))),
+}
+
+
+@P.unit(f"{CON}.yield_bfsd", name="BFS and rings on larger named graphs (5-8 atoms: rings, fused rings, branched tree): every start, direction and bond",
+        functions=[f"{CON}.yield_bfsd", f"{CON}.yield_bfs", f"{CON}.is_bond_in_ring"])
+def _bfs_named(V):
+    I, st = V.I, V.st
+    gname = V.choose(sorted(NAMED), "graph")
+    n, edges = NAMED[gname]
+    edges = list(edges)
+    m = M.mk_mol(V, "Molecule", n, tuple(edges), name="g")
+    atoms = m.fields["_atoms"].items
+    start = V.choose(list(range(n)), "start")
+    nbrs = sorted({q if p == start else p for p, q in edges if start in (p, q)})
+    direction = V.choose([None] + nbrs, "direction")
+    V.witness(lambda ev: {"op": "bfs", "edges": edges, "start": start, "direction": direction, "signature": "bfs"})
+    V.cover()
+    args = [atoms[start]] + ([atoms[direction]] if direction is not None else [])
+    I.target = f"{CON}.yield_bfsd"
+    try:
+        got = [(atoms.index(a), d) for a, d in I.iterate(I.call(I.getattr_(m, "yield_bfsd"), args, {}))]
+        got2 = [atoms.index(a) for a in I.iterate(I.call(I.getattr_(m, "yield_bfs"), args, {}))]
+    except PyExc:
+        V.ensure("bfs-named/terminates-without-exception", z3.BoolVal(False))
+        return
+    V.ensure("bfs-named/terminates-without-exception", z3.BoolVal(True))
+    ref = ref_bfs(n, edges, start, direction)
+    V.ensure("bfs-named/yields-exactly-the-reachable-atoms-once-each", z3.BoolVal(sorted(a for a, _ in got) == sorted(ref) and len({a for a, _ in got}) == len(got)))
+    V.ensure("bfs-named/labels-are-the-true-shortest-distances", z3.BoolVal(all(ref.get(a) == d for a, d in got)))
+    V.ensure("bfs-named/non-decreasing-distance", z3.BoolVal(all(x[1] <= y[1] for x, y in zip(got, got[1:]))))
+    V.ensure("bfs-named/yield_bfs-visits-the-same-atoms-in-the-same-order", z3.BoolVal(got2 == [a for a, _ in got]))
+    if direction is None:
+        # every bond at the start atom: in a ring iff not a bridge
+        I.target = f"{CON}.is_bond_in_ring"
+        oks = []
+        for k, (p, q) in enumerate(edges):
+            if start not in (p, q):
+                continue
+            try:
+                r = I.call(I.getattr_(m, "is_bond_in_ring"), [m.fields["_bonds"].items[k]], {})
+            except PyExc:
+                oks.append(False)
+                continue
+            rest = [e for j, e in enumerate(edges) if j != k]
+            oks.append(r is (q in ref_bfs(n, rest, p)))
+        V.witness(lambda ev: {"op": "ring", "edges": edges, "bond": [k for k, e in enumerate(edges) if start in e][0], "signature": "ring"})
+        V.ensure("ring-named/reported-in-a-ring-iff-not-a-bridge", z3.BoolVal(all(oks)))
+
+
 @P.unit(f"{CON}.is_bond_in_ring", name="is_bond_in_ring on every graph with 4 atoms: in a ring iff not a bridge")
 def _ring(V):
     I, st = V.I, V.st
